@@ -40,8 +40,11 @@ func checkC14(c *Ctx) {
 	c.c14Determinism()
 	// "exactly the exporter's entries": every Dump writes and every Restore reads the same stream — one gob record per entry and
 	// nothing else — so that any backend can import from any other (C13 R13.2)
-	c.borrowKinds("C13", func() { checkC13(c) }, "R14.2", "Dump/Restore:one-wire-format", []string{"R13.2", "R13.3"}, "dump-re-encodes", "dump-count", "wire-format", "dump-skips-entry",
-		"decoded-record-dropped", "restore-count", "decode-error-swallowed", "eof-returned-as-error")
+	c.borrowKinds("C13", func() { checkC13(c) }, "R14.2", "Dump/Restore:one-wire-format", []string{"R13.2", "R13.3", "R13.4"}, "dump-re-encodes", "dump-count", "wire-format", "dump-skips-entry",
+		"decoded-record-dropped", "restore-count", "decode-error-swallowed", "eof-returned-as-error",
+		// "the importer holds exactly those entries": Restore stores each decoded record where Read will look for it, in whatever state
+		// the importing cache is (a shard map released by DeleteAll must be re-made before Restore inserts into it) — C13 R13.4
+		"insert-into-possibly-nil-map", "restore-index")
 	c.rangeVarCapturedByGo("R14.2", func(name string) bool { return strings.HasPrefix(name, "HTTPTransfer.") })
 }
 
